@@ -53,6 +53,15 @@ func shapeProgram(r *rand.Rand, g *gen.G) (ref.Block, []ref.Rule) {
 			ref.Rule{Head: ref.Pred{Name: "sym", Terms: []ref.Term{v("x"), v("y")}}, Body: []ref.Pred{{Name: "e", Terms: []ref.Term{v("x"), v("y")}}, {Name: "e", Terms: []ref.Term{v("y"), v("x")}}}},
 			ref.Rule{Head: ref.Pred{Name: "tri", Terms: []ref.Term{v("x"), v("y"), v("z")}}, Body: []ref.Pred{{Name: "e", Terms: []ref.Term{v("x"), v("y")}}, {Name: "e", Terms: []ref.Term{v("y"), v("z")}}, {Name: "e", Terms: []ref.Term{v("z"), v("x")}}}})
 		qs = append(qs, ref.Rule{Head: ref.Pred{Name: "q", Terms: []ref.Term{v("x"), v("y")}}, Body: []ref.Pred{{Name: "sym", Terms: []ref.Term{v("x"), v("y")}}}})
+	case 4: // one rule application with many matches (cross product / projection over 8-13 facts)
+		n := 8 + r.Intn(6)
+		if r.Intn(2) == 0 {
+			b = crossProduct(n)
+			qs = append(qs, ref.Rule{Head: ref.Pred{Name: "q", Terms: []ref.Term{v("x"), v("y")}}, Body: []ref.Pred{{Name: "a", Terms: []ref.Term{v("x")}}, {Name: "b", Terms: []ref.Term{v("y")}}}, Exprs: []ref.Expr{ref.Bin("<=", ref.Leaf(v("x")), ref.Leaf(v("y")))}})
+		} else {
+			b = projection(n)
+			qs = append(qs, ref.Rule{Head: ref.Pred{Name: "q", Terms: []ref.Term{v("x"), v("y")}}, Body: []ref.Pred{{Name: "p", Terms: []ref.Term{v("x")}}, {Name: "q", Terms: []ref.Term{v("y")}}}})
+		}
 	default:
 		return ref.Block{}, nil
 	}
@@ -190,6 +199,9 @@ func c11Program(r *rand.Rand, g *gen.G) ref.Block {
 	}
 	switch r.Intn(7) {
 	case 0:
+		if r.Intn(4) == 0 {
+			return crossProduct(8 + r.Intn(6)) // 64..169 matches in one rule application
+		}
 		return crossProduct(2 + r.Intn(6))
 	case 1:
 		return chain(2 + r.Intn(14))
